@@ -117,7 +117,7 @@ fn replay_one(report: &mut Report, v: &Value) {
 }
 
 pub fn run(report: &mut Report, replay: Option<&Value>) {
-    report.rule = "each model schema is rendered three ways - SDL (.graphql/.graphqls/.gql; random definition order across kinds, explicit or default roots, extensions folded or not, descriptions, quoted / block-string deprecation reasons), bare introspection JSON and data-wrapped JSON (built-in scalars / `__` meta types / directives present or not, random order across kinds, pretty or compact) - and the same documents (1-3 operations, fragments) are generated under a default and a random option set. Relative order of definitions of one kind is kept (the schema language gives no other order to agree on). Oracle: identical token strings across the three renderings; errors agree in class. Non-trivial: the schema has an interface or union and a list nesting of depth >= 2; distinct by hash(schema, document, options).".into();
+    report.rule = "each model schema is rendered three ways - SDL (.graphql/.graphqls/.gql; random definition order across kinds, explicit or default roots, extensions folded or not, descriptions, quoted / block-string deprecation reasons), bare introspection JSON and data-wrapped JSON (built-in scalars / `__` meta types / directives present or not, random order across kinds, pretty or compact) - and the same documents (1-3 operations, fragments) are generated under a default and a random option set. Relative order of definitions of one kind is kept (the schema language gives no other order to agree on). Plus, where the schema lacks a mutation / subscription root but has an ordinary object of the conventional root name, an operation of that kind. Oracle: identical token strings across the three renderings; errors agree in class. Non-trivial: the schema has an interface or union and a list nesting of depth >= 2; distinct by hash(schema, document, options).".into();
     report.assumptions = vec!["`extend` of non-object kinds is outside the statement and not generated".into(), "graphql-parser 0.4.1 and serde_json parse the renderings faithfully".into()];
     if let Some(v) = replay {
         replay_one(report, v);
@@ -147,6 +147,18 @@ pub fn run(report: &mut Report, replay: Option<&Value>) {
                 jobs.push(Job { schema_path: p.clone(), query: QuerySrc::Text(b.case.document.clone()), opts: opts.clone(), cwd: None });
             }
             metas.push((tp.clone(), b.case.document.clone(), opts, rs.iter().map(|r| json!({"label": r.label, "ext": r.ext, "text": r.text})).collect::<Vec<_>>(), one_of_reachable(&b), b.features.has("abstract") && b.features.has("nested_list"), fnv_str(&[&rs[0].text, &b.case.document])));
+        }
+        // an operation kind the schema has no root for, while an ordinary object type carries the
+        // conventional root name: all renderings must agree (on the error)
+        for (kw, root, conv) in [("mutation", b.world.schema.mutation, "Mutation"), ("subscription", b.world.schema.subscription, "Subscription")] {
+            if root.is_none() && b.world.schema.objects.iter().any(|o| o.name == conv) {
+                let doc = format!("{} ZzRootProbe {{ __typename }}\n", kw);
+                for p in &paths {
+                    jobs.push(Job { schema_path: p.clone(), query: QuerySrc::Text(doc.clone()), opts: Opts::default(), cwd: None });
+                }
+                report.feature("rootless_kind_with_conventionally_named_object");
+                metas.push((tp.clone(), doc, Opts::default(), rs.iter().map(|r| json!({"label": r.label, "ext": r.ext, "text": r.text})).collect::<Vec<_>>(), false, true, fnv_str(&[&rs[0].text, kw, "rootless"])));
+            }
         }
         report.programs += 1;
     }
